@@ -280,7 +280,12 @@ def playback(crate_dir, res, scratch):
     Returns list of dicts {check_desc, test, panicked, native_out, replay: {KEY: value}}."""
     h = res['meta']
     r2 = run_harness(crate_dir, h, scratch, playback=True)
-    tests = TEST_RE.findall(r2['out'])
+    tests = []
+    seen_names = set()
+    for t in TEST_RE.findall(r2['out']):
+        if t[2] not in seen_names:   # Kani may emit the same test for two checks
+            seen_names.add(t[2])
+            tests.append(t)
     if not tests:
         return [], 'no concrete playback test produced:\n' + r2['out'][-2000:]
     pdir = os.path.join(scratch, 'playback', f"{os.path.basename(crate_dir)}__{h['name']}")
